@@ -181,7 +181,7 @@ Section ActFrame.
       apply in_app_or in Ha'. destruct Ha' as [Ha'|Ha']; [exact (Hb a' Ha')|].
       right. destruct (find_agent (w_born w) k) as [a|] eqn:Ef.
       + rewrite (Hext a' a Ha' eq_refl). exact (Hd a eq_refl).
-      + exfalso. unfold obj_remove in E. rewrite Ef in E.
+      + exfalso. unfold obj_remove in E. simpl in E. rewrite Ef in E.
         assert (ext = []) as -> by (apply (app_inv_head (w_born w)); rewrite <- E; symmetry; apply app_nil_r).
         exact Ha'.
   Qed.
@@ -308,7 +308,7 @@ Lemma fold_obj_plain l : forall w,
 Proof.
   induction l as [|k t IH]; intros w H; simpl; [reflexivity|].
   assert (obj_remove w k = agent_remove w k) as E.
-  { unfold obj_remove. destruct (find_agent (w_born w) k) as [a|] eqn:Ef.
+  { unfold obj_remove. simpl. destruct (find_agent (w_born w) k) as [a|] eqn:Ef.
     - rewrite (H k a (or_introl eq_refl) Ef). reflexivity.
     - unfold agent_remove, deregister_obj. rewrite Ef. reflexivity. }
   rewrite E. apply IH. intros k' a Hin Hf. unfold agent_remove in Hf. rewrite deregister_obj_born in Hf.
